@@ -77,8 +77,14 @@ func main() {
 			"fragments_with_accepted_rows": side.FragsNeeded, "returned_over_total": ratio, "needed_over_total": float64(side.FragsNeeded) / float64(side.FragsTotal),
 			"scans": side.Scans, "scans_that_pruned": side.PruningScans})
 		if ratio > 0.97 || side.PruningScans*20 < side.Scans {
+			// the inclusion "needed fragments are inside the returned ranges" is vacuous when the
+			// index returns (almost) everything: that is a collapse of what was observed, not a pass
 			c.Inconclusive("pruning-collapsed:index-returns-(almost)-everything", 1)
+			c.Broken("in-process part: Scan returned %.1f%% of all fragments and pruned in %d of %d scans; the check observed (almost) no pruning decision",
+				100*ratio, side.PruningScans, side.Scans)
 		}
+	} else {
+		c.Broken("in-process part: no scan was judged")
 	}
 
 	// categories the design requires; a category never produced is reported, not hidden
